@@ -219,6 +219,10 @@ func c11Eval(c *fw.Ctx, data any) {
 		conn.WriteSleepEvery = 8
 	}
 	s := startStream(conn, "eager", 0, 0)
+	if s == nil {
+		constructorWedged(c, "outbound")
+		return
+	}
 	// the exported protocol-version field of the stream, set before anything is submitted
 	s.stream.Version = uint8([]int{0, 0, 4, 1, 5, 255}[cs.MsgSeed%6])
 	c.Count("streams", 1)
